@@ -171,8 +171,8 @@ class DecimalConverter(NullConverter):
     def _decimal_to_xml(cls, py_value):
         xml_value = str(py_value)
         if 'E' in xml_value or 'e' in xml_value:
-            # no exp form allowed in xml
-            return cls._float_to_xml(float(py_value))
+            # no exp form allowed in xml, fixed-point format keeps all digits
+            return format(py_value, 'f')
         return xml_value
 
     @classmethod
@@ -189,7 +189,12 @@ class DecimalConverter(NullConverter):
             # All ·minimally conforming· processors ·must· support decimal numbers with a minimum of
             # 18 decimal digits (i.e., with a ·totalDigits· of 18).
             head, tail = xml_value.split('.')
-            tail = tail[:18 - len(head)]
+            int_digits = head.lstrip('+-').lstrip('0')  # sign and leading zeros are no digits
+            if int_digits:
+                max_tail = max(18 - len(int_digits), 0)
+            else:  # leading zeros of the fraction are no significant digits
+                max_tail = 18 + len(tail) - len(tail.lstrip('0'))
+            tail = tail[:max_tail]
             if tail:
                 xml_value = f'{head}.{tail}'
             else:
